@@ -51,7 +51,7 @@ PROPS = {
                 explanation="relational proof: every yielded item (object identity) and the final outcome of each tool equal those of the reference generator, for all items/lengths (loop cut + inductive coupling invariant)"),
     "C02": dict(level="proof", extra=[extras.refs_validation], canaries=[(CANARY, "canary:max-last-of-ties")], trusted_base=TB_COMMON + ["list.sort = stable sort (uninterpreted sort_by)"],
                 explanation="relational proof of return value / exception class against the reference aggregation; mutation of arguments shows as an in-place Op event the reference never performs"),
-    "C03": dict(level="proof", canaries=[(CANARY, "canary:filter-yields-before-test")], extra=[typing_pass.kind_pass],
+    "C03": dict(level="proof", canaries=[(CANARY, "canary:filter-yields-before-test")], extra=[typing_pass.kind_pass, extras.lru_methods_c03],
                 trusted_base=TB_COMMON + ["isinstance(x, Awaitable/AsyncIterable) and iscoroutinefunction as A9 says", "a callable keeps its flavour between calls (A6)"],
                 explanation="(a) contracts of _core.aiter/_aiter_sync/ScopedIter/borrow/awaitify/Awaitify proved on the real code for every iterable flavour (async generator, class-based with/without aclose, sync iterable, sequence) and callable flavour (def, async def/partial of one, callable returning an awaitable), incl. the cached state of Awaitify; (b) every tool is verified against those contracts only and every user callable is invoked through awaitify and awaited at once (neutral-call / await-adjacent obligations), so tool proofs never depend on the flavour; (c) result-kind judgement for every public name"),
     "C04": dict(level="proof", canaries=[(CANARY, "canary:enumerate-leaks-source")], trusted_base=TB_COMMON,
@@ -95,7 +95,7 @@ PROPS = {
     "C13": dict(level="proof", canaries=[(CANARY, "canary:filter-yields-before-test")],
                 trusted_base=TB_COMMON + ["reference = contextlib._AsyncGeneratorContextManager of the installed CPython, extracted mechanically on demand (tools/extract_refs.py, drift-checked on every run) and rendered synchronous by fixed textual rules",
                                           "async-generator protocol A3: the generator's answers to anext/athrow/aclose range over {yield, stop, raise the same object, raise a new exception (same or other class), RuntimeError caused by the thrown exception}; a Stop(Async)Iteration never leaves a generator as such (PEP 479/525)"],
-                extra=[extras.refs_drift],
+                extra=[extras.refs_drift, extras.contextmanager_native],
                 explanation="loop-free, hence complete case analysis: __aenter__/__aexit__ of the real class against the extracted CPython methods over every abstract generator answer, for the 8 block outcomes; GeneratorExit rows specified from the property (closed, same object propagates)"),
     "C14": dict(level="proof", canaries=[(CANARY, "canary:filter-yields-before-test")],
                 trusted_base=TB_COMMON + ["specification contracts/refs/ref_exitstack.py = fold of the with-statement semantics (language reference 8.5) over the registered exits; cross-checked natively against contextlib.AsyncExitStack up to a bound",
@@ -115,7 +115,7 @@ PROPS = {
     "C17": dict(level="proof", canaries=[(CANARY, "canary:filter-yields-before-test")], extra=[typing_pass.effect_pass],
                 trusted_base=TB_COMMON + ["`await x` for a user awaitable passes loop traffic through unchanged (language semantics of await = yield from, A4): assumed, not proved"],
                 explanation="effect typing: on every explored path of every job each `await` operand is a library coroutine / library generator method / library awaitable object (recursively typed) or an awaitable supplied by the user; statically: no asyncio import beyond iscoroutinefunction, no loop/sleep/lock/task primitive, no manual send/throw, no executable yield in a library __await__"),
-    "C20": dict(level="proof", canaries=[(CANARY, "canary:filter-yields-before-test")],
+    "C20": dict(level="proof", canaries=[(CANARY, "canary:filter-yields-before-test")], extra=[extras.retention],
                 trusted_base=TB_COMMON + ["CPython frees an object when its last reference disappears; evaluation-stack temporaries do not outlive a statement; frame locals and containers reachable from them are the only roots a tool holds (generator-finaliser / GC effects not modelled)",
                                           "documented accumulators are exempt: cycle, sorted, list/tuple/set/dict builders; tee retains hist[min y_p:] = the lead (its invariant is proved under C09)"],
                 explanation="retain obligations at every loop head of every streaming tool and single-pass aggregation (each iteration passes one): the item-valued locals are a fixed finite set (count reported) and every container of items obeys the declared window as a loop invariant (batched: n; others: no symbolic-length container at all); for tee: every buffer is hist[y_p:] and nothing is buffered for a finished child"),
